@@ -16,7 +16,7 @@ func c14Key(cm *connMatrix) string {
 		fds = append(fds, fd)
 	}
 	sort.Ints(fds)
-	return fmt.Sprint(cm.connCount, fds)
+	return fmt.Sprint(cm.connCount, fds) + c14Scalars(cm)
 }
 
 func c14Extra(cm *connMatrix, live map[int]*conn) string {
